@@ -151,13 +151,27 @@ def getters(optic):
 # lenses: lensgen specs plus the variants the property quantifies over
 # ----------------------------------------------------------------------------------------------
 def build(spec):
-    """lensgen.build + spec['c13'] = {'polarization': 'H'|'V'|'L+45'|'RCP'|'unpolarized'|None, 'fresnel': bool}"""
+    """lensgen.build / build_via + spec['c13'] = {
+         'route': 'direct' | 'handbuilt' | 'reuse' | 'roundtrip'   (how the Optic object comes into being),
+         'polarization': 'H'|'V'|'L+45'|'RCP'|'unpolarized'|None, 'fresnel': bool, 'aperture_array': bool,
+         'pickups': [[source, attr, target, scale, offset] ...], 'solves': [[type, surface, value] ...]
+             (added, then Optic.update() is called once),
+         'pending_edits': [[setter name, args ...] ...]
+             (setters called AFTER that update and NOT followed by update(): the lens carries pickups/solves that a
+              re-application would act on; no read-only call may re-apply them)}
+    Deterministic: the same spec always gives the same lens."""
     import contextlib
     import io
+    import random
     import lensgen
-    with contextlib.redirect_stdout(io.StringIO()):      # the catalogue lookup prints warnings
-        o = lensgen.build(spec)
     extra = spec.get('c13') or {}
+    route = extra.get('route', 'direct')
+    with contextlib.redirect_stdout(io.StringIO()), warnings.catch_warnings(), np.errstate(all='ignore'):
+        warnings.simplefilter('ignore')                  # (the catalogue lookup prints, the reuse route divides by 0)
+        if route != 'direct' and hasattr(lensgen, 'build_via'):
+            o = lensgen.build_via(spec, route, random.Random(extra.get('route_seed', 1)))
+        else:
+            o = lensgen.build(spec)
     if extra.get('aperture_array'):
         # the system aperture value handed over as a 0-d ndarray (a value that came out of a NumPy computation)
         o.set_aperture(spec['aperture'][0], np.array(float(spec['aperture'][1])))
@@ -166,7 +180,87 @@ def build(spec):
     if extra.get('polarization'):
         from optiland.rays.polarization_state import create_polarization
         o.set_polarization(create_polarization(extra['polarization']))
+    for pk in extra.get('pickups', []):
+        o.pickups.add(*pk)
+    for sv in extra.get('solves', []):
+        o.solves.add(*sv)
+    if extra.get('pickups') or extra.get('solves'):
+        o.update()
+    for e in extra.get('pending_edits', []):
+        getattr(o, e[0])(*e[1:])
     return o
+
+
+def _aux_rng(spec):
+    """a generator that depends on the spec only (the main stream of gen_spec is left untouched, so lenses that
+    earlier checks relied on stay the same)"""
+    import json
+    import random
+    return random.Random(hashlib.sha1(json.dumps(spec, sort_keys=True, default=str).encode()).hexdigest())
+
+
+def add_routes_and_pending(spec):
+    """decorate a generated spec (in place) with a construction route and, where the prescription allows it, with
+    pickups / a solve and an edit that is still pending"""
+    r = _aux_rng(spec)
+    c = spec.setdefault('c13', {})
+    if r.random() < 0.4:
+        c['route'] = r.choice(['handbuilt', 'reuse', 'roundtrip'])
+        c['route_seed'] = r.randrange(1000)
+    surfs = spec['surfaces']
+    plain = [i for i, s in enumerate(surfs) if s.get('type', 'standard') == 'standard' and 'conic' not in s
+             and s.get('radius') not in (None, float('inf')) and s.get('material') != 'mirror']
+    if r.random() < 0.3 and len(plain) >= 2 and not any(s.get('material') == 'mirror' for s in surfs) \
+            and c.get('route') != 'roundtrip':
+        i, j = sorted(r.sample(plain, 2))
+        c['pickups'] = [[i + 1, 'radius', j + 1, -1.0, 0.0]]
+        if r.random() < 0.5:
+            c['solves'] = [['marginal_ray_height', len(surfs), 0.0]]
+        c['pending_edits'] = [['set_radius', surfs[i]['radius'] * r.choice([0.9, 1.15]), i + 1]]
+    return spec
+
+
+# fixed corpus: lenses that carry pickups / solves and an edit the user has not yet followed by update()
+def pending_specs():
+    inf = float('inf')
+    base = {'object_thickness': inf, 'aperture': ['EPD', 8.0], 'field_type': 'angle',
+            'fields': [[0.0, 0.0, 0.0, 0.0], [4.0, 0.0, 0.0, 0.0]], 'wavelengths': [[0.5876, True]],
+            'telecentric': False}
+    s2 = [{'type': 'standard', 'radius': 50.0, 'thickness': 5.0, 'is_stop': True, 'material': ['ideal', 1.5168, 0.0]},
+          {'type': 'standard', 'radius': -50.0, 'thickness': 45.0, 'material': 'air'}]
+    s4 = [{'type': 'standard', 'radius': 40.0, 'thickness': 4.0, 'is_stop': True, 'material': ['glass', 'N-BK7', 'schott']},
+          {'type': 'standard', 'radius': -60.0, 'thickness': 3.0, 'material': 'air'},
+          {'type': 'standard', 'radius': 80.0, 'conic': -0.5, 'thickness': 4.0, 'material': ['ideal', 1.6, 0.0]},
+          {'type': 'standard', 'radius': -80.0, 'conic': 0.0, 'thickness': 40.0, 'material': 'air'}]
+    out = [
+        dict(base, name='radius-pickup, set_radius pending', surfaces=[dict(x) for x in s2],
+             c13={'pickups': [[1, 'radius', 2, -1.0, 0.0]], 'pending_edits': [['set_radius', 65.0, 1]]}),
+        dict(base, name='image solve, set_radius pending', surfaces=[dict(x) for x in s2],
+             c13={'solves': [['marginal_ray_height', 2, 0.0]], 'pending_edits': [['set_radius', 40.0, 1]]}),
+        dict(base, name='conic+thickness pickups and solve, several edits pending', surfaces=[dict(x) for x in s4],
+             c13={'pickups': [[3, 'conic', 4, 1.0, 0.0], [1, 'thickness', 3, 1.0, 0.0], [1, 'radius', 4, -2.0, 0.0]],
+                  'solves': [['marginal_ray_height', 4, 0.0]],
+                  'pending_edits': [['set_conic', -1.0, 3], ['set_thickness', 6.0, 1], ['set_radius', 45.0, 1]]}),
+        dict(base, name='radius pickup on a rebuilt Optic (reuse), set_index pending', surfaces=[dict(x) for x in s2],
+             c13={'route': 'reuse', 'route_seed': 3, 'pickups': [[1, 'radius', 2, -1.0, 0.0]],
+                  'solves': [['marginal_ray_height', 2, 0.0]], 'pending_edits': [['set_index', 1.7, 1]]}),
+    ]
+    for s in out:
+        s['variant'] = 'pending edit: ' + s['name']
+    return out
+
+
+def dispersive_specs():
+    """fixed corpus of lenses with catalogue glasses (mixed-wavelength batches need dispersion)"""
+    import lensgen
+    out = [dict(s) for s in lensgen.corpus() if s.get('name') in ('cemented', 'tir-planoconvex')]
+    for s in out:
+        s['variant'] = 'dispersive: ' + s['name']
+    return out
+
+
+def is_dispersive(spec):
+    return any(isinstance(s.get('material'), list) and s['material'][0] == 'glass' for s in spec['surfaces'])
 
 
 def gen_spec(rng, variant=None, **kw):
@@ -206,6 +300,7 @@ def gen_spec(rng, variant=None, **kw):
         spec['fields'] = f
         spec['fields_order'] = 'not ascending'
     spec['variant'] = variant
+    add_routes_and_pending(spec)
     return spec
 
 
@@ -570,9 +665,10 @@ def _call_trace(optic, mode, Hx, Hy, Px, Py, w):
     'rays' (9, n) the returned bundle x y z L M N i opd w, 'p' (n, 3, 3) the polarization matrices if any"""
     f = lambda a: np.array(a, dtype=float)   # noqa
     if mode == 'trace':
-        r = optic.trace(float(Hx[0]), float(Hy[0]), w, None, _Points(Px, Py))
+        r = optic.trace(float(Hx[0]), float(Hy[0]), w[0] if isinstance(w, list) else w, None, _Points(Px, Py))
     else:
-        r = optic.trace_generic(f(Hx), f(Hy), f(Px), f(Py), w)
+        # a list = one wavelength PER RAY in one call (RayGenerator broadcasts the argument to the rays)
+        r = optic.trace_generic(f(Hx), f(Hy), f(Px), f(Py), f(w) if isinstance(w, list) else w)
     out = {'records': _records(optic),
            'rays': np.array([r.x, r.y, r.z, r.L, r.M, r.N, r.i, r.opd])}
     if hasattr(r, 'p'):
@@ -607,7 +703,7 @@ def batch_independence(optic, Hx, Hy, Px, Py, w, rng, subsets=3, mode='trace_gen
             groups.append(list(reversed(range(n))))
             for g in groups:
                 sub = _call_trace(optic, mode, [Hx[j] for j in g], [Hy[j] for j in g], [Px[j] for j in g],
-                                  [Py[j] for j in g], w)
+                                  [Py[j] for j in g], [w[j] for j in g] if isinstance(w, list) else w)
                 for col, j in enumerate(g):
                     cmp_ += 1
                     for part in full:
